@@ -38,7 +38,26 @@ def rule_a_b(repo, chk):
     f = repo.func(WEB_TOOLS, 'check_auth')
     chk.touch(f)
     g = f.cfg()
-    tests = [n for n in g.nodes if n.kind == 'test' and any((call_name(c) or '').endswith('checkResponse') for c in calls_in(n.ast))]
+    def has_check(a):
+        return any((call_name(c) or '').endswith('checkResponse') for c in calls_in(a))
+    tests = [n for n in g.nodes if n.kind == 'test' and has_check(n.ast)]
+    # the verdict may be computed into a variable first (inside a try that refuses what cannot be verified): `v = <facts> and checkResponse(…)`;
+    # v is true only if checkResponse() was, provided every other definition of v is a falsy constant
+    call_sites = list(tests)
+    short_circuit = {}          # call-site node -> operands that are known true when checkResponse() is evaluated
+    for n in g.nodes:
+        if n.kind == 'stmt' and isinstance(n.ast, ast.Assign) and len(n.ast.targets) == 1 and isinstance(n.ast.targets[0], ast.Name) and has_check(n.ast.value):
+            v = n.ast.targets[0].id
+            e_ = n.ast.value
+            conj = (isinstance(e_, ast.Call)) or (isinstance(e_, ast.BoolOp) and isinstance(e_.op, ast.And) and any(isinstance(o, ast.Call) and has_check(o) for o in e_.values))
+            others = [m for m in g.nodes if m is not n and v in Q.node_defs(m)]
+            falsy = all(m.kind == 'stmt' and isinstance(m.ast, ast.Assign) and isinstance(m.ast.value, ast.Constant) and not m.ast.value.value for m in others)
+            if conj and falsy:
+                tests += [m for m in g.nodes if m.kind == 'test' and src(m.ast) == v]
+                call_sites.append(n)
+                if isinstance(e_, ast.BoolOp):
+                    idx = [i for i, o in enumerate(e_.values) if isinstance(o, ast.Call) and has_check(o)][0]
+                    short_circuit[n] = e_.values[:idx]
     chk.ob('a', f.ref, 'check_auth decides through checkResponse()', bool(tests), loc(f, f.node), discr='uses-checkResponse')
     ok_edge = lambda e: e.src in tests and e.kind == 'T'  # noqa: E731
     rets = [n for n in g.nodes if n.kind == 'stmt' and isinstance(n.ast, ast.Return)]
@@ -53,7 +72,7 @@ def rule_a_b(repo, chk):
                path=pat.path_lines(q) if q else None, discr=f'truthy-return:{_kind(v)}')
     p = Q.escapes(g, [g.entry], lambda n: n in rets)
     chk.ob('a', f.ref, 'check_auth never falls off its end with an implicit result', p is None, loc(f, f.node), discr='explicit-returns', nontrivial=False)
-    for t in tests:
+    for t in call_sites:
         c = [c for c in calls_in(t.ast) if (call_name(c) or '').endswith('checkResponse')][0]
         pv = src(c.args[1]) if len(c.args) > 1 else None
         kw = {k.arg: src(k.value) for k in c.keywords if k.arg}
@@ -61,12 +80,29 @@ def rule_a_b(repo, chk):
                pv is not None and kw.get('realm') == f.params[2] and kw.get('method') == f'{f.params[0]}.method', loc(f, c), detail=f'`{src(c)[:100]}`', discr='check-args')
         if pv:
             q = pat.guarded_by(g, t, pat.test_edge(lambda tt, pol: pat.fact_matches(pat.compare_fact(tt, pol), pv, ('is not', '!='), 'None')))
+            if q is not None and any(pat.fact_matches(pat.compare_fact(o, 'T'), pv, ('is not', '!='), 'None') for o in short_circuit.get(t, [])):
+                q = None      # `password is not None and checkResponse(…)`: short-circuit evaluation
             chk.ob('b', f.ref, 'the stored password is known to be not None when checkResponse() is evaluated', q is None, loc(f, c),
                    path=pat.path_lines(q) if q else None, discr='password-not-none')
             defs = [n for n in g.nodes if n.kind == 'stmt' and pv in Q.node_defs(n)]
             ok = bool(defs) and all(('.get(' in src(n.ast.value) and "ah['username']" in src(n.ast.value)) or "(ah['username'])" in src(n.ast.value) for n in defs)
             chk.ob('b', f.ref, 'the password is looked up for the presented user name only', ok, loc(f, c), detail='; '.join(n.text[:50] for n in defs),
                    discr='password-lookup')
+    # nothing raised while examining what the client sent can leave check_auth (an exception is not a refusal: in a request filter it skips
+    # event.stop() and the protected handler runs)
+    from sa.cfg import handler_names
+    for n in g.nodes:
+        if n.kind not in ('stmt', 'test'):
+            continue
+        for c in pat.node_calls(n):
+            nm = call_name(c) or ''
+            if nm.startswith('_httpauth.') and nm.split('.')[-1] in ('parseAuthorization', 'checkResponse'):
+                caught = set()
+                for h in pat.enclosing_try_handlers(g, n):
+                    names = handler_names(h.ast)
+                    caught |= set(names) if names else {'*'}
+                chk.ob('a', f.ref, f'no exception of `{nm}` (malformed, undecodable or unsupported credentials) can leave check_auth: it is refused instead',
+                       bool(caught & {'*', 'Exception', 'BaseException'}), loc(f, c), detail=f'handlers around the call: {sorted(caught)}', discr=f'no-escape:{nm.split(".")[-1]}')
     # login recorded only on success
     logins = [n for n in g.nodes if n.kind == 'stmt' and f.params[0] in pat.stores_attr(n.ast, 'login') and not (isinstance(n.ast.value, ast.Constant) and not n.ast.value.value)]
     for n in logins:
